@@ -54,14 +54,24 @@ def compile_liquid_rules(
         rf"{tag_s}-?\s*enddoc\s*(?P<rsd>-?){tag_e}"
     )
 
-    output_pattern = rf"{stmt_s}-?\s*(?P<stmt>.*?)\s*(?P<rss>-?){stmt_e}"
+    # The statement starts and ends with a non-whitespace character, so a run of
+    # whitespace can't be split between it and the whitespace on either side.
+    output_pattern = (
+        rf"{stmt_s}-?\s*(?P<stmt>(?:\S(?:\s*\S)*?)??)\s*(?P<rss>-?){stmt_e}"
+    )
 
     # The "name" group is zero or more characters so that a malformed tag (one
     # with no name) does not get treated as a literal.
     #
     # The `#` in the `name` group is specifically for the inline comment tag.
+    #
+    # Whitespace after the name is only matched when there is a name, and the
+    # expression starts and ends with a non-whitespace character. Otherwise the same
+    # run of whitespace could be split between four adjacent groups in every possible
+    # way, which made a tag that is never closed take O(n^4) steps to reject.
     tag_pattern = (
-        rf"{tag_s}-?(?P<pre>\s*(?P<name>#|\w*)\s*)(?P<expr>.*?)\s*(?P<rst>-?){tag_e}"
+        rf"{tag_s}-?(?P<pre>\s*(?P<name>#|\w*)(?:(?<=[\w#])\s*)?)"
+        rf"(?P<expr>(?:\S(?:\s*\S)*?)??)\s*(?P<rst>-?){tag_e}"
     )
 
     if not comment_start_string:
